@@ -29,7 +29,10 @@ def families(tier):
     f = [{'name': 'one-changes', 'params': {}, 'weight': 3}, {'name': 'all-vary', 'params': {}, 'weight': 1},
          # build, unchanged build (everything reused), then a build in which one version changes / disappears / stays
          {'name': 'one-changes', 'params': {'builds': 3, 'repeat_first': True, 'shapes': ['absent', 'none', 'int', 'str']}, 'weight': 2},
-         {'name': 'all-vary', 'params': {'leaf_may_raise': True}, 'weight': 2}]
+         {'name': 'all-vary', 'params': {'leaf_may_raise': True}, 'weight': 2},
+         # a user function that happens to be called like a simple operation, next to an independent function that used it
+         {'name': 'one-changes', 'params': {'leaf_name': 'is_dir', 'side_query': 'is_dir', 'shapes': ['absent', 'int', 'str']}, 'weight': 1},
+         {'name': 'one-changes', 'params': {'leaf_name': 'read', 'side_query': 'read_m', 'shapes': ['absent', 'int']}, 'weight': 1}]
     if tier == 'thorough':
         f += [{'name': 'one-changes', 'params': {'builds': 3}, 'weight': 3}, {'name': 'diamond', 'params': {}, 'weight': 2}]
     return f
@@ -72,6 +75,10 @@ def vmap(m):
 
 
 def harness(eng, fam, P):
+    # the leaf function may carry the name of a simple operation (is_dir, read, ...): names of user functions and of
+    # operations live in different version maps
+    LEAF = P.get('leaf_name', 'leaf')
+    NAMES = ['outer', 'mid', LEAF]
     w = World(eng, [], fixed={'o': 'D'}, sandbox=getattr(eng, 'sandbox', None))
     try:
         kinds = [eng.choose('kind' + n, 2) for n in NAMES]       # 0 subbuild, 1 build_file
@@ -85,13 +92,13 @@ def harness(eng, fam, P):
             return ('BF', 'o/' + n, {'mode': 'ok', 'name': n, 'catch': catch_leaf and i == 2}, body)
 
         if fam == 'diamond':
-            leaf1 = ('SB', 'leaf', {'args': (1,)}, [])
-            leaf2 = ('SB', 'leaf', {'args': (2,)}, [])
+            leaf1 = ('SB', LEAF, {'args': (1,)}, [])
+            leaf2 = ('SB', LEAF, {'args': (2,)}, [])
             body = [mk(0, [leaf1]), mk(1, [leaf2]), ('SB', 'side', {}, [])]
-            callers = {'outer': ['outer', 'leaf'], 'mid': ['mid', 'leaf'], 'leaf': ['leaf'], 'side': ['side']}
+            callers = {'outer': ['outer', LEAF], 'mid': ['mid', LEAF], LEAF: [LEAF], 'side': ['side']}
         else:
-            body = [mk(0, [mk(1, [mk(2, [])]), ('SB', 'side', {}, [])])]
-            callers = {'outer': ['outer', 'mid', 'leaf'], 'mid': ['mid', 'leaf'], 'leaf': ['leaf'], 'side': ['side']}
+            body = [mk(0, [mk(1, [mk(2, [])]), ('SB', 'side', {}, [('Q', P['side_query'], 'o')] if P.get('side_query') else [])])]
+            callers = {'outer': ['outer', 'mid', LEAF], 'mid': ['mid', LEAF], LEAF: [LEAF], 'side': ['side']}
         prog = Program(eng, body)
         eng.path_info['program'] = show(body)
         sid_name = {}
@@ -127,10 +134,10 @@ def harness(eng, fam, P):
                     eng.constrain(L.implies(same_v, beh[sid] == behs[b - 1][sid]))
             if P.get('leaf_may_raise'):
                 # one version of the leaf may be a raising one (caught by mid); JSON-equal versions behave alike
-                leaf_sid = [sid for sid, n in sid_name.items() if n == 'leaf'][0]
+                leaf_sid = [sid for sid, n in sid_name.items() if n == LEAF][0]
                 r = bool(eng.choose('leafraises%d' % b, 2))
                 if b > 0:
-                    same_v = J.spec_equal(vval(eng, vers[b - 1]['leaf']), vval(eng, vers[b]['leaf']))
+                    same_v = J.spec_equal(vval(eng, vers[b - 1][LEAF]), vval(eng, vers[b][LEAF]))
                     eng.assume(L.implies(same_v, r == (behs[b - 1][leaf_sid] is RAISES)), 'JSON-equal versions of a function behave alike (raising or not)')
                 if r:
                     beh[leaf_sid] = RAISES
